@@ -4,6 +4,7 @@ import (
 	"fmt"
 	"sort"
 	"strings"
+	"syscall"
 	"testing"
 	"time"
 
@@ -285,7 +286,15 @@ func cronsim(t *testing.T, tp *simrt.Tape, opts RunOpts) *Outcome {
 	// handling of the tick (between its listing of the history directory and its reading of the newest record)
 	slowed := map[int]bool{}
 	slowOn := chance(tp, 1, 2)
+	watchErrOn := chance(tp, 1, 3) // fault "watcher_error": the file notification backend reports errors now and then (no event lost)
 	cfg.FaultPlan = func(op *simrt.OpInfo) simrt.Fault {
+		if op.Kind == "inotify_read" {
+			if watchErrOn && tp.Chance(simrt.SFault, 1, 3) {
+				op.Proc.W.CountFault("watcher_error")
+				return simrt.Fault{Kind: simrt.FErr, Errno: syscall.EIO}
+			}
+			return simrt.Fault{}
+		}
 		if !slowOn || cw == nil || op.Kind != "unlink" || !strings.HasSuffix(op.Path, ".dat") || slowed[op.Proc.Pid] {
 			return simrt.Fault{}
 		}
